@@ -144,7 +144,12 @@ class Machine:
             # so that the next script does not start with a stray separator.
             self._clock.stop()
             self._vm_io.reset()
-            self._vm_io.flush()
+            try:
+                self._vm_io.flush()
+            except Exception as flush_ex:
+                # No output sink bound, for one: run() reports, it does not
+                # raise.
+                logging.debug('Nothing to flush: {}'.format(flush_ex))
 
     def stop(self) -> None:
         self._keep_running = False
